@@ -229,9 +229,34 @@ var addrProp = vp.Register(vp.Prop[Case]{
 	Kind: "c06.addr", Base: 20000,
 	Gen: func(t *rapid.T) Case {
 		nets := allNets()
-		switch rapid.IntRange(0, 16).Draw(t, "src") {
+		switch rapid.IntRange(0, 18).Draw(t, "src") {
 		case 0:
 			return Case{Addr: gen.Addr().Draw(t, "any")}
+		case 17, 18:
+			// Runs of equal bytes: the first k bytes of a listed base (or of
+			// zero), then one to three runs of a repeated byte, then a last
+			// byte of its own.  Checks that compare a region with a shifted
+			// copy of itself, or only some of its bytes, confuse "all equal"
+			// with "all zero".
+			var b [16]byte
+			if rapid.Bool().Draw(t, "frombase") {
+				b = rapid.SampledFrom(nets).Draw(t, "net").Addr().As16()
+			}
+			at := rapid.IntRange(0, 12).Draw(t, "keep")
+			for runs := rapid.IntRange(1, 3).Draw(t, "runs"); runs > 0 && at < 16; runs-- {
+				v := rapid.OneOf(rapid.Byte(), rapid.SampledFrom([]byte{0x00, 0x01, 0x11, 0xff, 0xfe, 0x80})).Draw(t, "fill")
+				end := 16
+				if runs > 1 {
+					end = rapid.IntRange(at, 16).Draw(t, "end")
+				}
+				for ; at < end; at++ {
+					b[at] = v
+				}
+			}
+			if rapid.Bool().Draw(t, "ownlast") {
+				b[15] = rapid.SampledFrom([]byte{0x00, 0x01, 0x02, 0xfe, 0xff}).Draw(t, "last")
+			}
+			return Case{Addr: netip.AddrFrom16(b)}
 		case 14, 15, 16:
 			// Arithmetic neighbours: the leading 32- or 64-bit word of a
 			// listed base moved by a small amount, and the following 32-bit
